@@ -1,5 +1,5 @@
 /-
-C13 — regenerated tie for benchmath/anone.go (uTestMinP, uTestSamples, medianSamples, medianCI,
+C13 — regenerated tie for benchmath/anone.go (uTestMinP, uTestSamples, medianSamples/medianSamplesAbove, medianCI,
 assumeNothing.Compare/Summary) and benchmath/sample.go (DefaultThresholds).
 
 `Generated/NothingFacts.lean` is re-extracted on every check run; the theorems tie it to
@@ -42,17 +42,19 @@ the fallback `len(uTestMinP)`: model = source on every boundary probe. -/
 theorem utest_samples_agrees : (alphaProbes.all fun a => uTestSamples a == uTestSamplesG a) = true := by
   decide +kernel
 
-/-- `medianSamples` from the regenerated facts over a table of (LoOrder, HiOrder) for
-n = start, start+1, … -/
-def medianSamplesG (needTab : List (Nat × Nat)) : Op × Nat :=
+/-- `medianSamplesAbove` from the regenerated facts over a table of (LoOrder, HiOrder) for
+n = start, start+1, …: the source loop runs from max(start, have + step) -/
+def medianSamplesAboveG (needTab : List (Nat × Nat)) (have_ : Nat) : Op × Nat :=
   let env (n : Nat) (e : Nat × Nat) : Nat → Int
     | 0 => n | 1 => NothingFacts.medianLimit | 2 => e.1 | _ => e.2
+  let first := max NothingFacts.medianStart (have_ + NothingFacts.medianHaveStep)
   let rec go (fuel n : Nat) (tab : List (Nat × Nat)) : Op × Nat :=
     match fuel, tab with
     | 0, _ => (opOf NothingFacts.medianFallbackOp, NothingFacts.medianLimit)
     | _, [] => (opOf NothingFacts.medianFallbackOp, NothingFacts.medianLimit)
     | fuel + 1, e :: rest =>
-      if !(evalCond (env n e) NothingFacts.medianLoopCond) then
+      if n < first then go fuel (n + 1) rest
+      else if !(evalCond (env n e) NothingFacts.medianLoopCond) then
         (opOf NothingFacts.medianFallbackOp, NothingFacts.medianLimit)
       else if evalCond (env n e) NothingFacts.medianFoundCond then (opOf NothingFacts.medianFoundOp, n)
       else go fuel (n + 1) rest
@@ -66,10 +68,25 @@ def medianProbes : List (List (Nat × Nat)) :=
     let post := (1, j + 3) :: List.replicate (58 - j) (0, 0)
     [pre ++ (1, j + 2) :: post, pre ++ (0, j + 2) :: post, pre ++ (1, j + 3) :: post]
 
-/-- **median_samples_agrees** — start 2, limit 50, `n <= limit`, `0 < LoOrder && HiOrder <= n`,
-returned operators and fallback: model = source on boundary probes around every n. -/
+/-- probe tables with EARLIER hits as well (every row from 2 up to row j a hit): the `have` bound
+alone must skip them -/
+def medianProbesDense : List (List (Nat × Nat)) :=
+  (List.range 55).map fun j => (List.range 60).map fun i => if i ≤ j then (1, i + 2) else (0, 0)
+
+/-- sizes at hand probed around every row -/
+def haveProbes (j : Nat) : List Nat := [0, 1, j, j + 1, j + 2, j + 3, 49, 50, 51]
+
+/-- **median_samples_agrees** — start max(2, have+1), limit 50, `n <= limit`,
+`0 < LoOrder && HiOrder <= n`, returned operators and fallback: model = source on boundary probes
+around every n and every size at hand; `medianSamples` delegates with have = 0; Summary asks for a
+size above `len(s.Values)`. -/
 theorem median_samples_agrees :
-    (medianProbes.all fun t => medianSamples t == medianSamplesG t) = true := by decide +kernel
+    (((List.range 55).flatMap fun j => (haveProbes j).flatMap fun h =>
+        ((medianProbes.drop (3 * j)).take 3 ++ (medianProbesDense.drop j).take 1).map fun t => (t, h)).all
+      fun th => medianSamplesAbove th.1 th.2 == medianSamplesAboveG th.1 th.2) = true ∧
+    (medianProbes.all fun t => medianSamples t == medianSamplesAboveG t NothingFacts.medianDelegateHave) = true ∧
+    NothingFacts.summaryNeedAboveLen = true := by
+  refine ⟨by decide +kernel, by decide +kernel, rfl⟩
 
 /-- median = quantile 0.5 (the model's `half`) -/
 theorem median_quantile_agrees : f64 NothingFacts.medianQuantile = half := by decide +kernel
